@@ -510,8 +510,8 @@ theorem keeps_processCloseMarket (w : World) (mid : Nat) (book : Book) : Keeps w
 
 /-! ### scripted strategy actions and the whole update -/
 
-theorem keeps_doAction (w : World) (mid : Nat) (batch : Option Txn) (a : Action) : Keeps w (w.doAction mid batch a).1 := by
-  unfold doAction
+theorem keeps_doActionCore (w : World) (mid : Nat) (batch : Option Txn) (a : Action) : Keeps w (w.doActionCore mid batch a).1 := by
+  unfold doActionCore
   simp only
   split
   · exact Keeps.refl w
@@ -545,6 +545,17 @@ theorem keeps_doAction (w : World) (mid : Nat) (batch : Option Txn) (a : Action)
       cases batch with
       | some t => exact keeps_txnExit w t
       | none => exact Keeps.refl w
+
+theorem noteForeign_orders (w : World) (mid : Nat) (a : Action) : (w.noteForeign mid a).orders = w.orders := by
+  unfold noteForeign; split <;> rfl
+theorem noteForeign_markets (w : World) (mid : Nat) (a : Action) : (w.noteForeign mid a).markets = w.markets := by
+  unfold noteForeign; split <;> rfl
+theorem noteForeign_queue (w : World) (mid : Nat) (a : Action) : (w.noteForeign mid a).queue = w.queue := by
+  unfold noteForeign; split <;> rfl
+
+theorem keeps_doAction (w : World) (mid : Nat) (batch : Option Txn) (a : Action) : Keeps w (w.doAction mid batch a).1 := by
+  unfold doAction
+  exact (Keeps.of_eq (noteForeign_orders w mid a)).trans (keeps_doActionCore _ mid batch a)
 
 theorem keeps_doActions (w : World) (mid : Nat) (as : List Action) : Keeps w (w.doActions mid as).1 := by
   unfold doActions
